@@ -47,8 +47,23 @@ class Decoder:
             sb.memory_map = MemoryMap(addr_width=sc["aw"], data_width=cfg["dw"])
             for a in sc.get("align_to") or []:
                 dec.align_to(a)
-            got = dec.add(sb, name=cfg["names"][k] if cfg.get("names") else None,
-                          addr=sc["start"] if sc.get("explicit", cfg.get("explicit")) else None)
+            retried = k >= 1 and (k + cfg["aw"]) % 2 == 1
+            if retried:
+                # a first attempt that must be refused (it lands on the first window), then the real one: a refused
+                # add() may leave nothing behind that makes the retry fail or the bus half-attached
+                try:
+                    dec.add(sb, addr=cfg["subs"][0]["start"])
+                except ValueError:
+                    pass
+                else:
+                    raise common.Violation("overlap-accepted", f"csr.Decoder.add() accepted a window on top of another: {cfg['subs']}")
+            try:
+                got = dec.add(sb, name=cfg["names"][k] if cfg.get("names") else None,
+                              addr=sc["start"] if sc.get("explicit", cfg.get("explicit")) else None)
+            except ValueError as e:
+                if retried:
+                    raise common.Violation("retry-refused", f"after a refused attempt, csr.Decoder.add() refuses the legal window {sc}: {e}")
+                raise
             if got[0] != sc["start"]:
                 raise common.MachineryError(f"window placement not reproducible: {sc} -> {got}")
             subs.append(sb)
@@ -239,7 +254,11 @@ def build_tree(t, dw, m=None):
     def rec(t, path):
         if t["kind"] == "mux":
             mm = MemoryMap(addr_width=t["aw"], data_width=dw, alignment=t["al"])
+            early = csrmux.early_point(len(t["regs"]), t["aw"], [(rc["size"], rc["width"]) for rc in t["regs"]])
+            mux = None
             for k, rc in enumerate(t["regs"]):
+                if k == early:
+                    mux = csr.Multiplexer(mm, shadow_overlaps=t["overlaps"])      # registers added later are legal
                 reg = csrmux.MockReg(rc["width"], rc["acc"])
                 kw = {}
                 if rc["addr"] is not None:
@@ -251,7 +270,8 @@ def build_tree(t, dw, m=None):
                 except ValueError:
                     continue
                 regs.append(reg)
-            mux = csr.Multiplexer(mm, shadow_overlaps=t["overlaps"])
+            if mux is None:
+                mux = csr.Multiplexer(mm, shadow_overlaps=t["overlaps"])
             if m is not None:
                 m.submodules["_".join(path) + "_mux"] = mux
             return mux.bus
